@@ -185,3 +185,23 @@ Proof.
   eexists. split; [vm_compute; reflexivity|]. split; [discriminate|]. split; [repeat constructor|].
   split; vm_compute; reflexivity.
 Qed.
+(* _update_raw (the in-place path of Custom.values[i] = v): succeeds exactly on a matching (raw kind, value type)
+   pair, the raw value then reads as the new value; otherwise nothing is touched *)
+Theorem C15_custom_update_raw :
+  forall (D : Type) (dadd dsub dmul ddiv : D -> D -> D) (dneg dabs : D -> D) (dltz : D -> bool)
+         (num_value : list Z -> D) (num_text : D -> list Z)
+         (str_text str_value : list Z -> list Z)
+         (date_text : CustomValues.date -> list Z) (date_value : list Z -> CustomValues.date)
+         (bool_text : bool -> list Z) (bool_value : list Z -> bool),
+  (forall s, str_value (str_text s) = s) -> (forall d, date_value (date_text d) = d) ->
+  (forall b, bool_value (bool_text b) = b) ->
+  (forall v, num_value (num_text (dabs v)) = dabs v) ->
+  (forall v, dltz v = true -> dneg (dabs v) = v) -> (forall v, dltz v = false -> dabs v = v) ->
+  forall r v,
+  let upd := CustomValues.update_raw D dabs dltz num_text str_text date_text bool_text r v in
+  snd upd = CustomValuesProofs.kinds_match D r v /\
+  (CustomValuesProofs.kinds_match D r v = true ->
+   CustomValues.simplify_value D dadd dsub dmul ddiv dneg num_value str_value date_value bool_value (fst upd)
+   = CustomValuesProofs.read_back D dadd dsub dmul ddiv dneg num_value str_value date_value bool_value v) /\
+  (CustomValuesProofs.kinds_match D r v = false -> fst upd = r).
+Proof. exact CustomValuesProofs.update_raw_spec. Qed.
